@@ -452,6 +452,19 @@ func execNewreq(ts []string) string {
 	if again := hx(r.Bytes()); again != first {
 		return "ENCODING-NOT-STABLE second=" + again + " " + out
 	}
+	// the bytes handed out are the caller's: it writes into them, and the request (and a new request made from the same
+	// arguments) still encodes to the same frame
+	for i := range frame {
+		frame[i] ^= 0xFF
+	}
+	if again := hx(r.Bytes()); again != first {
+		return "ENCODING-NOT-STABLE after-the-caller-wrote-into-the-frame second=" + again + " " + out
+	}
+	if r3, err := construct(a); err == nil {
+		if again := hx(r3.Bytes()); again != first {
+			return "ENCODING-NOT-STABLE after-the-caller-wrote-into-the-frame new-request=" + again + " " + out
+		}
+	}
 	return out
 }
 
